@@ -435,3 +435,24 @@ func zzErrStep(err error) int {
 	}
 	return c
 }
+
+// ---- C10(b): the same document decoded to float64 and to json.Number ----
+
+func zzH_C10_twin() {
+	zzDeclHoles()
+	doc := zzDoc("doc")
+	zzAssume(zzIsContainer(doc))
+	twin := zzTwin(doc)
+	n := len(zzMembers(doc))
+	expr := zzPath("a")
+	selF, ok1 := zzPositions(expr, doc, n)
+	selN, ok2 := zzPositions(expr, twin, n)
+	if !ok1 || !ok2 {
+		return
+	}
+	for i := 0; i < n; i++ {
+		zzAssert(selF[i] == selN[i], "decoding-independent")
+	}
+}
+
+func init() { zzHarnesses["zzH_C10_twin"] = zzH_C10_twin }
